@@ -7,8 +7,12 @@ import (
 	"flag"
 	"fmt"
 	"os"
+	"path/filepath"
+	"runtime"
 	"runtime/pprof"
 	"sort"
+	"strconv"
+	"time"
 
 	"verif/internal/core"
 )
@@ -37,6 +41,23 @@ func main() {
 			pprof.StartCPUProfile(f)
 			defer pprof.StopCPUProfile()
 		}
+	}
+	if gb, _ := strconv.Atoi(os.Getenv("VERIF_HEAP_DUMP_GB")); gb > 0 {
+		// diagnosis of the harness itself: write one heap profile when the live heap passes the mark
+		go func() {
+			var ms runtime.MemStats
+			for {
+				time.Sleep(2 * time.Second)
+				runtime.ReadMemStats(&ms)
+				if ms.HeapInuse > uint64(gb)<<30 {
+					if f, err := os.Create(filepath.Join(core.VerifDir(), "logs", fmt.Sprintf("heap-%s.pprof", *id))); err == nil {
+						pprof.WriteHeapProfile(f)
+						f.Close()
+					}
+					return
+				}
+			}
+		}()
 	}
 	if *list {
 		var ids []string
